@@ -371,3 +371,10 @@ PLAN["C06"]["quick"]["wall"] = 150
 PLAN["C06"]["quick"]["tests"].append({"run": "TestC06Cleaner", "shards": 8, "checks": 1, "timeout": 110, "shrink": "1s", "env": {"VERIF_NOSHRINK": 1}})
 PLAN["C06"]["thorough"]["tests"].append({"run": "TestC06Cleaner", "shards": 4, "checks": 10, "timeout": 860, "shrink": "1s", "env": {"VERIF_NOSHRINK": 1}})
 PLAN["C06"]["rule"] += "; TestC06Cleaner: the product's cleaner loop (see C11) with and without working sync agents - every retained user snapshot keeps its image"
+
+PLAN["C10"]["quick"]["tests"][0]["shards"] = 7
+PLAN["C10"]["quick"]["tests"].append({"run": "TestC10Crash", "shards": 4, "checks": 30, "timeout": 100, "shrink": "20s"})
+PLAN["C10"]["thorough"]["tests"][0]["shards"] = 7
+PLAN["C10"]["thorough"]["tests"].append({"run": "TestC10Crash", "shards": 4, "checks": 400, "timeout": 840, "shrink": "60s"})
+PLAN["C10"]["rule"] += ("; TestC10Crash: the strace-driven crash / failed-call enumeration of C08 over open, write, set-revision-counter, revert and close (plain opens of existing files are fault points as well): "
+                        "after a process death or a failed call the reopened directory's counter lies between the value before and the value after the operation")
